@@ -11,6 +11,7 @@ cfgs = [C('FPS', 'sample'), C('FPS', 'feature'), C('PCovFPS', 'sample'), C('PCov
 UNITS = [(lambda c: (lambda: S.u_fit(c)))(c) for c in cfgs]
 UNITS += [(lambda c: (lambda: S.u_views(c)))(c) for c in (C('FPS', 'feature'), C('FPS', 'sample'), C('PCovFPS', 'feature'), C('PCovFPS', 'sample'))]
 RT = True
-TRUSTED = ["vector layer (see C01); Lean lemma sqd_expand: ||u-v||^2 = <u,u> + <v,v> - 2<u,v>",
+TRUSTED = ["vector layer (see C01); Lean theorem sqd_expand (lemmas/lean/Lemmas.lean, machine-checked by Lean 4 + Mathlib): ||u-v||^2 = <u,u> + <v,v> - 2<u,v>",
            "PCov-FPS: the distance is d(a,b) = D_aa + D_bb - 2 D_ab over the matrix D returned by pcovr_kernel/pcovr_covariance (called with the configured mixing on (X, y): call-site preconditions); that D is the documented modified Gram/covariance matrix is the subject of C03",
            "rounding and ties within rounding are not decided (proofs are over the reals); bounded runtime oracle with tie-aware acceptance only"]
+LEAN_LEMMAS = "lemmas/lean/Lemmas.lean"
